@@ -451,6 +451,8 @@ def do_step(ctx, step, log):
         b, m = ctx.pool[bi]
         if m.binf != 1:
             return "skip"
+        if rg.random() < 0.5 and len(m.rows):
+            obs_load(ctx, b, m, rg, op + ":before")  # the batch may have been used before it grows
         before = pool_digests(ctx)
         if op == "add_tomogram":
             t = rg.randrange(w["n_tomo"])
@@ -469,6 +471,8 @@ def do_step(ctx, step, log):
         after = pool_digests(ctx)
         _noninterference(before, after, {bi}, op)
         check_rows(ctx, b, m, op)
+        if rg.random() < 0.7:
+            obs_load(ctx, b, m, rg, op + ":after")  # ... and is used again right away
         return "ok"
     if op == "from_loaders":
         cands = [i for i, (o, mm) in enumerate(ctx.pool) if is_single(mm) and mm.binf == 1]
